@@ -16,6 +16,12 @@ PYIO = 'lightmotif-py/lightmotif/io.rs'
 
 SAMP = 'lightmotif/src/sampler.rs'
 
+SSE2F = 'lightmotif/src/pli/platform/sse2.rs'
+PLI = 'lightmotif/src/pli/mod.rs'
+DISP = 'lightmotif/src/pli/dispatch.rs'
+SCORES = 'lightmotif/src/scores.rs'
+SEQ = 'lightmotif/src/seq.rs'
+
 MUTANTS = [
     # ---- C05
     dict(id='c05-accept-lowercase', prop='C05', rule='R5.1', file=ABC, old="b'N' => Ok(Nucleotide::N),", new="b'N' | b'n' => Ok(Nucleotide::N),"),
@@ -31,6 +37,26 @@ MUTANTS = [
     dict(id='c10-complement-both', prop='C10', rule='R10.2', file=PWM, old="data[i][s.as_index()] = row[A::complement(s).as_index()];", new="data[i][A::complement(s).as_index()] = row[A::complement(s).as_index()];", occ=1),
     dict(id='c10-complement-none', prop='C10', rule='R10.2', file=PWM, old="data[i][s.as_index()] = row[A::complement(s).as_index()];", new="data[i][s.as_index()] = row[s.as_index()];", occ=3),
     dict(id='c10-rev-outside-enumerate', prop='C10', rule='R10.2', file=PWM, old="for (i, row) in self.data.iter().rev().enumerate() {", new="for (i, row) in self.data.iter().enumerate().rev() {", occ=0),
+    # ---- C01
+    dict(id='c01-shuffle-mask', prop='C01', rule='R1.1', file=AVX2, old="        0xFFFFFF07, 0xFFFFFF06, 0xFFFFFF05, 0xFFFFFF04,\n        0xFFFFFF07, 0xFFFFFF06, 0xFFFFFF05, 0xFFFFFF04,\n    );", new="        0xFFFFFF07, 0xFFFFFF06, 0xFFFFFF05, 0xFFFFFF04,\n        0xFFFFFF07, 0xFFFFFF05, 0xFFFFFF06, 0xFFFFFF04,\n    );", occ=1),
+    dict(id='c01-permute-imm', prop='C01', rule='R1.1', file=AVX2, old="let r2 = _mm256_permute2f128_ps(s3, s4, 0x20);", new="let r2 = _mm256_permute2f128_ps(s3, s4, 0x31);", occ=1),
+    dict(id='c01-store-offsets', prop='C01', rule='R1.1', file=AVX2, old="        _mm256_stream_ps(rowptr.add(0x08), r2);\n        _mm256_stream_ps(rowptr.add(0x10), r3);", new="        _mm256_stream_ps(rowptr.add(0x10), r2);\n        _mm256_stream_ps(rowptr.add(0x08), r3);", occ=0),
+    dict(id='c01-pssmptr-stride', prop='C01', rule='R1.1', file=AVX2, old="pssmptr = pssmptr.add(pssm.stride());", new="pssmptr = pssmptr.add(8);", occ=1),
+    dict(id='c01-acc-reset-in-loop', prop='C01', rule='R1.1', file=AVX2, old="            let y = _mm256_shuffle_epi8(t, x);\n            // add scores to the running sum\n            s = _mm256_adds_epu8(s, y);", new="            let y = _mm256_shuffle_epi8(t, x);\n            // add scores to the running sum\n            s = _mm256_adds_epu8(_mm256_setzero_si256(), y);"),
+    dict(id='c01-gather-scale', prop='C01', rule='R1.1', file=AVX2, old="let b3 = _mm256_i32gather_ps(pssmptr, x3, std::mem::size_of::<f32>() as i32);", new="let b3 = _mm256_i32gather_ps(pssmptr, x3, 8);"),
+    dict(id='c01-seq-row-position', prop='C01', rule='R1.1', file=AVX2, old="    for i in rows {\n        // reset sums for current position\n        let mut s = _mm256_setzero_si256();\n        // reset pointers to row\n        let mut seqptr = seq.matrix()[i].as_ptr();", new="    for (i, _r) in rows.enumerate() {\n        // reset sums for current position\n        let mut s = _mm256_setzero_si256();\n        // reset pointers to row\n        let mut seqptr = seq.matrix()[i].as_ptr();"),
+    dict(id='c01-sse2-unpack-swap', prop='C01', rule='R1.1', file=SSE2F, old="                let x2 = _mm_unpackhi_epi8(lo, zero);\n                let x3 = _mm_unpacklo_epi8(hi, zero);", new="                let x2 = _mm_unpacklo_epi8(hi, zero);\n                let x3 = _mm_unpackhi_epi8(lo, zero);"),
+    dict(id='c01-sse2-lut-index', prop='C01', rule='R1.1', file=SSE2F, old="let lut = _mm_load1_ps(pssmptr.add(k));", new="let lut = _mm_load1_ps(pssmptr.add((k + 1) % A::K::USIZE));"),
+    dict(id='c01-sse2-acc-init', prop='C01', rule='R1.1', file=SSE2F, old="            let mut s3 = _mm_setzero_ps();\n            let mut s4 = _mm_setzero_ps();\n            // reset position", new="            let mut s3 = _mm_set1_ps(1.0);\n            let mut s4 = _mm_setzero_ps();\n            // reset position"),
+    dict(id='c01-generic-col', prop='C01', rule='R1.1', file=PLI, old="let symbol = seq.matrix()[seq_row + j][col];", new="let symbol = seq.matrix()[seq_row + j][(col + 1) % C::USIZE];"),
+    dict(id='c01-k-guard', prop='C01', rule='R1.2', file=AVX2, old="        if A::K::USIZE <= 8 {\n            Self::score_f32_rows_into_permute", new="        if A::K::USIZE <= 32 {\n            Self::score_f32_rows_into_permute"),
+    dict(id='c01-resize-offbyone', prop='C01', rule='R1.3', file=AVX2, old="scores.resize(rows.len(), (seq.len() + 1).saturating_sub(pssm.rows()));", new="scores.resize(rows.len(), seq.len().saturating_sub(pssm.rows()));", occ=1),
+    dict(id='c01-resize-rows-end', prop='C01', rule='R1.3', file=SSE2F, old="scores.resize(rows.len(), (seq.len() + 1).saturating_sub(pssm.rows()));", new="scores.resize(rows.end, (seq.len() + 1).saturating_sub(pssm.rows()));"),
+    dict(id='c01-scores-index-swap', prop='C01', rule='R1.4', file=SCORES, old="        let col = index / self.data.rows();\n        let row = index % self.data.rows();\n        &self.data[row][col]\n    }\n}\n\nimpl<T: MatrixElement, C: PositiveLength> From<StripedScores", new="        let col = index % self.data.rows();\n        let row = index / self.data.rows();\n        &self.data[row][col]\n    }\n}\n\nimpl<T: MatrixElement, C: PositiveLength> From<StripedScores"),
+    dict(id='c01-seq-index-with-wrap', prop='C01', rule='R1.4', file=SEQ, old="        let rows = self.data.rows() - self.wrap;\n        let col = index / rows;", new="        let rows = self.data.rows();\n        let col = index / rows;"),
+    dict(id='c01-dispatch-arm', prop='C01', rule='R1.5', file=DISP, old="Dispatch::Avx2 => Avx2::argmax_f32(scores),", new="Dispatch::Avx2 => Sse2::argmax(scores),"),
+    dict(id='c01-dispatch-op', prop='C01', rule='R1.5', file=DISP, old="Dispatch::Avx2 => Avx2::max_u8(scores),", new="Dispatch::Avx2 => Avx2::argmax_u8(scores).map(|c| scores.matrix()[c] / 2),"),
+    dict(id='c01-score-position-offset', prop='C01', rule='R1.6', file=PWM, old="            score += row[s[pos + j].as_index()]\n        }\n        score\n    }\n\n    /// Get a discrete matrix", new="            score += row[s[pos + j + 1].as_index()]\n        }\n        score\n    }\n\n    /// Get a discrete matrix"),
     # ---- C02 / C03
     dict(id='c02-unwrap-back', prop='C02', rule='R2.1', file=SCAN, old="if self.pipeline.max(&self.dscores).map_or(false, |m| m >= t) {", new="if self.pipeline.max(&self.dscores).unwrap() >= t {"),
     dict(id='c02-bound-removed', prop='C02', rule='R2.2', file=SCAN, old="if index < self.dscores.max_index() {", new="if index <= self.dscores.max_index() {"),
@@ -154,6 +180,8 @@ MUTANTS = [
 ]
 
 BENIGN = [
+    dict(id='c01-reorder-intrinsics', prop='C01', file=AVX2, occ=0, old="            s1 = _mm256_add_ps(s1, b1);\n            s2 = _mm256_add_ps(s2, b2);\n            s3 = _mm256_add_ps(s3, b3);\n            s4 = _mm256_add_ps(s4, b4);", new="            s4 = _mm256_add_ps(s4, b4);\n            s2 = _mm256_add_ps(s2, b2);\n            s3 = _mm256_add_ps(s3, b3);\n            s1 = _mm256_add_ps(s1, b1);"),
+    dict(id='c01-length-plain', prop='C01', file=SSE2F, old="scores.resize(rows.len(), (seq.len() + 1).saturating_sub(pssm.rows()));", new="scores.resize(rows.len(), seq.len() - pssm.rows() + 1);"),
     dict(id='c15-guard-in-reader', prop='C15', file=IO+'uniprobe/mod.rs', old="        let matrix = match self::parse::build_matrix::<A>(columns) {", new="        if columns.is_empty() {\n            return Some(Err(Error::InvalidData));\n        }\n        let matrix = match self::parse::build_matrix::<A>(columns) {"),
     dict(id='c08-factor-256', prop='C08', file=PWM, old="let factor = (max_score - offset) / (u8::MAX as f32);", new="let factor = (max_score - offset) / 256.0;"),
     dict(id='c08-offsets-are-maxima', prop='C08', file=PWM, old="                    .min_by(|x, y| x.partial_cmp(y).unwrap())\n                    .unwrap()\n            })\n            .cloned()", new="                    .max_by(|x, y| x.partial_cmp(y).unwrap())\n                    .unwrap()\n            })\n            .cloned()"),
